@@ -1000,7 +1000,7 @@ def trace_back(body, local, max_steps=40):
                     steps.append(("static", o["static"]))
                 elif "fn" in o:
                     steps.append(("fn", o["fn"]))
-                elif "uneval" in o:
+                elif "uneval" in o and "v" not in o:
                     steps.append(("uneval", o["uneval"]))
                 else:
                     steps.append(("const", o.get("v", o.get("str", "?"))))
